@@ -1,21 +1,22 @@
 #!/bin/bash
 # usage: harness/seed_try.sh <srcdir with SEED/> <seed name e.g. C05e> <check ids...>
 # imports a sub-agent's seeded change, confirms it (patch applies, suite passes, demo fails with / passes without),
-# runs the given checks against it, restores /repo.
+# runs the given checks against it, restores the tree. Works on VERIF_REPO (default /repo; a plain copy is fine).
 set -u
 src="$1"; name="$2"; shift 2
 cd /verif
-if [ -n "$(git -C /repo status --short)" ]; then echo "/repo is not clean"; exit 2; fi
+REPO=${VERIF_REPO:-/repo}
+export VERIF_REPO=$REPO
 d=seeded/$name
 mkdir -p $d
 cp -r "$src"/SEED/* $d/ 2>/dev/null
 demo=$(ls $d/demo.py $d/demo.sh 2>/dev/null | head -1)
-run_demo() { if [[ "$demo" == *.py ]]; then DEPCCG_TREE=/repo PYTHONPATH=/repo timeout 600 /venv/bin/python $demo >/tmp/demo_$name.log 2>&1; else DEPCCG_TREE=/repo timeout 600 bash $demo >/tmp/demo_$name.log 2>&1; fi; echo $?; }
+run_demo() { if [[ "$demo" == *.py ]]; then DEPCCG_TREE=$REPO PYTHONPATH=$REPO timeout 900 /venv/bin/python $demo >/tmp/demo_$name.log 2>&1; else DEPCCG_TREE=$REPO timeout 900 bash $demo >/tmp/demo_$name.log 2>&1; fi; echo $?; }
 echo "demo clean: exit $(run_demo)"
-git -C /repo apply "$PWD/$d/patch.diff" || { echo "patch does not apply"; exit 2; }
-trap 'git -C /repo checkout -- . ; git -C /repo clean -fdq depccg tests 2>/dev/null' EXIT
+(cd $REPO && git apply "/verif/$d/patch.diff") || { echo "patch does not apply"; exit 2; }
+trap '(cd $REPO && git apply -R "/verif/$d/patch.diff")' EXIT
 echo "demo patched: exit $(run_demo)"
-echo "suite: $(cd /repo && /venv/bin/python -m pytest -q -p no:cacheprovider --timeout=900 --continue-on-collection-errors 2>&1 | tail -1)"
+echo "suite: $(cd $REPO && /venv/bin/python -m pytest -q -p no:cacheprovider --timeout=900 --continue-on-collection-errors 2>&1 | tail -1)"
 for id in "$@"; do
   out=$(timeout 1700 ./check "$id" --tier quick 2>/dev/null | grep -E "^VIOLATION|^\[" | cut -c1-300)
   echo "check $id: $out"
